@@ -77,6 +77,8 @@ let runners : (string * (z list -> z list)) list = [
   "suspend", run_suspend;
   "once", run_once;
   "onceconf", run_onceconf;
+  "ets", run_ets;
+  "etsseq", run_etsseq;
 ]
 
 let () =
